@@ -1,15 +1,49 @@
 import Driver.Engine
 import TrustfallModel.Model.Replay
+import TrustfallModel.Model.ReplayInterp
 /-!
 Driver commands of the replay group (C15).
 
 `(replay-exec <schema> <data> <text hex> <ir> <args>)` — the implementation side executes the query
-through `AdapterTap`, serialises and deserialises the trace and replays it through
-`TraceReaderAdapter`; the model's answer is the rows of the list-level interpreter
-(`TF.Driver.handleEngine`, which knows `replay-exec`).
+directly, through `AdapterTap`, serialises and deserialises the trace and replays it through
+`TraceReaderAdapter`; the model's answer is the rows of the list-level interpreter, computed twice:
+directly, and by `record`ing the table of the adapter answers the run asks for and `replay`ing from
+that table alone.  If the two disagree, or the recording does not become complete, the answer is
+`(model-replay-mismatch …)`, which no implementation answer equals.
+
+Everything else is delegated to `handleEngine`.
 -/
 namespace TF.Driver
+open TF TF.Engine
 
-def handleReplay : Handler := handleEngine
+/-- upper bound on the number of distinct adapter calls recorded for one request -/
+def recordFuel : Nat := 20000
+
+def replayExec (schema data ir args : Sexp) : Option String := do
+  let d ← parseData schema data
+  let q ← parseIR ir
+  let a ← parseArgs args
+  match validateArgs q.variables a with
+  | .ok none =>
+    let env := Env.ofData d a
+    let direct := renderR (interpret env q)
+    let (table, complete) := record env q recordFuel []
+    let replayed := renderR (replay env table q)
+    if complete && replayed == direct then pure direct
+    else pure s!"(model-replay-mismatch complete={complete} calls={table.length})"
+  | .ok (some errs) => pure ("(err args " ++ " ".intercalate errs ++ ")")
+  | .panic _ => pure "panic"
+  | .fuel => pure "out-of-fuel"
+
+def handleReplay : Handler
+  | "replay-exec", [schema, data, _text, ir, args] => replayExec schema data ir args
+  /- number of distinct adapter calls of the run (diagnostics) -/
+  | "replay-calls", [schema, data, _text, ir, args] => do
+    let d ← parseData schema data
+    let q ← parseIR ir
+    let a ← parseArgs args
+    let (table, complete) := record (Env.ofData d a) q recordFuel []
+    pure s!"(calls {table.length} {complete})"
+  | cmd, xs => handleEngine cmd xs
 
 end TF.Driver
